@@ -1,4 +1,5 @@
 import Mkdb.Proofs.PageCache
+import Mkdb.Proofs.Evict7
 /-!
 # C16 — query results do not depend on the page-cache size
 
@@ -60,3 +61,295 @@ example : Inv Example.s0 ∧ (run Example.s0 Example.w).isSome = true ∧
   refine ⟨Example.s0_inv, by decide, by decide⟩
 
 end Mkdb.PageCache
+
+/-!
+## C16 on the heap model: evicting clean pages changes nothing the engine can see
+
+The theorems above are about the abstract cache model.  The engine model runs on the page heap
+`Mkdb.Store`, whose cache is unbounded: nothing is ever evicted in it.  `evict s offs` (Proofs/Evict1) is
+the eviction step of the real cache on the heap model - the cache loses the pages at the offsets `offs`
+that the engine sees clean, for ANY list of offsets (which pages go is the LRU policy of C15; every
+choice is covered); a page the engine sees dirty is never dropped.  The theorems below say that this
+step is invisible: to the page heap, to the database invariant of the statement-level theorems (C01,
+C08, C14, C17, C18), to the outcome of every statement, to every reader, and along whole histories of
+statements, flushes and evictions.
+
+Two routes, with different reach:
+* through the plain model (`C16_statement_outcomes_do_not_depend_on_evictions`, `C16_histories_with_evictions`):
+  ANY evictions; outcomes as accepted / refused; side conditions of C01 / C14;
+* directly on the heap (`C16_evicted_run_is_the_same_run`, `C16_histories_with_evictions_same_errors`): the
+  run on the smaller cache is step for step the run on the larger one - the same error values, also for
+  a statement refused at a later row - for evictions of pages that are in the data file (every page of
+  the catalog description is, `C16_catalog_pages_may_always_be_evicted`) and a cache with one entry per
+  offset (a Go map).
+
+Limit: the heap model has no capacity, so it cannot exhibit the refusal of a page load by a cache that
+is full of dirty pages; `C16_refusal_only_when_full_of_dirty` (above, on the abstract model) says that
+this is the only way a bounded cache differs, and the property's precondition excludes it.
+-/
+namespace Mkdb.Store
+open Mkdb.Tree Mkdb.Page Mkdb.Tuple Mkdb.Generated
+
+/-- **C16.eviction_is_invisible**: let the store hold a catalog (`Cat`: the trees `pt`, `sch`, `tbls`)
+whose clean pages are in the data file (`Synced`, a clause of `DbInv`), and evict the clean pages at any
+offsets.  Then (1) at the offset of every page of every tree the engine sees exactly what it saw: the
+same page content and the same dirty bit (a dropped page is read back from the file, clean - which it
+was); (2) headers and data file are untouched; (3) a page the engine sees dirty stays in the cache;
+(4) at ANY offset - catalog page or not - the engine sees the same as before provided the page it saw
+clean there is the data file's page (without this the eviction IS visible:
+`Mkdb.Store.visible_without_the_file`); (5) where a page was dropped, the engine now sees the data
+file's page. -/
+theorem C16_eviction_is_invisible (s : Store) (pt sch : Levels) (tbls : List (Bytes × Levels))
+    (hc : Cat s pt sch tbls) (hsy : Synced s pt sch tbls) (offs : List Nat) :
+    (∀ x ∈ catTrees pt sch tbls, ∀ e ∈ flatten x,
+      view (evict s offs) e.1 = view s e.1 ∧ view s e.1 = some (e.2.1, e.2.2)) ∧
+    ((evict s offs).hdr = s.hdr ∧ (evict s offs).dhdr = s.dhdr ∧ (evict s offs).disk = s.disk) ∧
+    (∀ o n, view s o = some (n, true) → assocGet (evict s offs).mem o = assocGet s.mem o) ∧
+    (∀ o, (∀ n, view s o = some (n, false) → assocGet s.disk o = some n) → view (evict s offs) o = view s o) ∧
+    (∀ o, view (evict s offs) o = view s o ∨
+      (o ∈ offs ∧ (∃ n, view s o = some (n, false)) ∧
+        view (evict s offs) o = (assocGet s.disk o).map fun n => (n, false))) := by
+  refine ⟨fun x hx e he => ?_, ⟨rfl, rfl, rfl⟩, fun o n hv => evict_keeps_dirty hv, fun o h => evict_view_eq h,
+    fun o => ?_⟩
+  · have hh := (hc.tree x hx).1
+    exact ⟨(hh.evict (hsy x hx) offs e he).trans (hh e he).symm, hh e he⟩
+  · rw [view_evict]
+    by_cases he : evictable s offs o = true
+    · obtain ⟨h1, h2⟩ := evictable_view he
+      exact .inr ⟨h1, h2, by simp [he]⟩
+    · exact .inl (by simp [he])
+
+/-- non-vacuity: the computed database after INSERT and flush holds its catalog with every clean page in
+the data file, and evicting its three pages empties the cache -/
+example : (∃ pt sch tbls, Cat dbF.store pt sch tbls ∧ Synced dbF.store pt sch tbls) ∧
+    (evict dbF.store allPages).mem = [] ∧ dbF.store.mem.length = 3 := by
+  obtain ⟨pt, sch, tbls, hi, _⟩ := dbInv_dbF
+  obtain ⟨sdb0, habs, _⟩ := hi.abs
+  exact ⟨⟨pt, sch, tbls, habs.cat, hi.synced⟩, evict_example.2.1, by decide +kernel⟩
+
+/-- **C16.eviction_preserves_the_database_invariant**: the invariant of the statement-level theorems
+(`DbInv`: abstraction to the plain database `sdb`, no stale schema rows, cache filed, log applied, clean
+pages in the file) survives the eviction of ANY set of clean pages, with the SAME plain database, the
+SAME catalog trees and the same log; so do its parts `Holds` (tree by tree), `Cat`, `AbsV` and the
+relation `Rel` of C01 / C14, and "closed database" (`DbFlushed`).  Hence every theorem stated for a
+database in `DbInv` applies after any eviction, and says the same. -/
+theorem C16_eviction_preserves_the_database_invariant (db : Engine.DB) (sdb : Spec.SDB) (pt sch : Levels)
+    (tbls : List (Bytes × Levels)) (h : DbInv db sdb pt sch tbls) (offs : List Nat) :
+    DbInv (evictDB db offs) sdb pt sch tbls ∧ (evictDB db offs).wal = db.wal ∧
+    (∀ x ∈ catTrees pt sch tbls, Holds (evict db.store offs) x) ∧
+    Cat (evict db.store offs) pt sch tbls ∧ AbsV (evict db.store offs) pt sch tbls sdb ∧
+    Rel (evictDB db offs) pt sch tbls sdb ∧
+    (DbFlushed db sdb pt sch tbls → DbFlushed (evictDB db offs) sdb pt sch tbls) := by
+  obtain ⟨sdb0, habs, hv⟩ := h.abs
+  exact ⟨h.evict offs, rfl, fun x hx => ((habs.cat.tree x hx).1).evict (h.synced x hx) offs,
+    habs.cat.evict h.synced offs, h.abs.evict h.synced offs, (h.evict offs).rel, fun hk => hk.evict offs⟩
+
+/-- non-vacuity: `tableDB` (computed: CREATE DATABASE, CREATE TABLE t (a INT)) satisfies the invariant;
+evicting its three pages empties its cache -/
+example : DbInv tableDB sdbA0 ptT schT [(tname, tT)] ∧ (evictDB tableDB allPages).store.mem = [] :=
+  ⟨dbFlushed_tableDB.inv, by decide +kernel⟩
+
+/-- **C16.statement_outcomes_do_not_depend_on_evictions** (any evictions; through the plain model).  On a
+database that satisfies the invariant for the plain database `sdb`, evict ANY clean pages before a
+statement.  (1) If the plain model accepts the statement (with the room a Go program has, `StmtRoom`, as
+in `C01_every_statement_refines_plain_model`), the engine model accepts it with and without the
+eviction, and both results satisfy the invariant for the plain model's result `sdb'`.  (2) If the
+statement is refused before a change (`StmtRefusal`, as in `C14_refused_statement_plain_model`), the
+plain model refuses it and the engine model refuses it with and without the eviction, the log is
+untouched and both results satisfy the invariant for the SAME plain database and the same trees.
+(3) For every other outcome - a multi-row INSERT / UPDATE refused at a later row, the known finding of
+C14 - under the side conditions of `C18_every_statement_keeps_the_database_invariant` the run after the
+eviction still returns `.ok` or `.err` and keeps the invariant for some plain database; that it is the
+same error and the same plain database as without the eviction is `C16_evicted_run_is_the_same_run`
+(for evictions of pages that are in the data file).  Not said here: that the two error values of (2)
+are equal - also in `C16_evicted_run_is_the_same_run`. -/
+theorem C16_statement_outcomes_do_not_depend_on_evictions (db : Engine.DB) (order : List Nat) (sdb : Spec.SDB)
+    (pt sch : Levels) (tbls : List (Bytes × Levels)) (h : DbInv db sdb pt sch tbls) (offs : List Nat)
+    (st : Sql.Stmt) :
+    (∀ sdb', StmtRoom db pt sch tbls st → Spec.specStmt sdb st = some sdb' →
+      (∃ db1 pt1 sch1 tbls1, evalStmt db order st = .ok () db1 ∧ DbInv db1 sdb' pt1 sch1 tbls1) ∧
+      (∃ db2 pt2 sch2 tbls2, evalStmt (evictDB db offs) order st = .ok () db2 ∧ DbInv db2 sdb' pt2 sch2 tbls2)) ∧
+    (StmtRefusal sdb pt st →
+      Spec.specStmt sdb st = none ∧
+      (∃ e1 db1, evalStmt db order st = .err e1 db1 ∧ db1.wal = db.wal ∧ DbInv db1 sdb pt sch tbls) ∧
+      (∃ e2 db2, evalStmt (evictDB db offs) order st = .err e2 db2 ∧ db2.wal = db.wal ∧ DbInv db2 sdb pt sch tbls)) ∧
+    (StmtNames pt tbls st → StmtRoomT db pt sch tbls st → StmtLits st →
+      ∃ db2, (evalStmt (evictDB db offs) order st = .ok () db2 ∨ ∃ e, evalStmt (evictDB db offs) order st = .err e db2) ∧
+        ∃ sdb' pt' sch' tbls', DbInv db2 sdb' pt' sch' tbls') :=
+  ⟨fun sdb' hroom hspec => accepted_evict h offs order st hroom sdb' hspec,
+   fun hbad => refused_evict h offs order st hbad,
+   fun hnames hroom hlits => evalStmt_keeps_inv (evictDB db offs) order sdb pt sch tbls (h.evict offs) st hnames
+     (hroom.evict offs) hlits⟩
+
+/-- non-vacuity: on `tableDB`, `INSERT INTO t VALUES (5), (6)` is accepted by the plain model with room, and
+`CREATE TABLE t (b VARCHAR(10))` is a refusal before a change (the table exists) -/
+example : DbInv tableDB sdbA0 ptT schT [(tname, tT)] ∧
+    StmtRoom tableDB ptT schT [(tname, tT)] (.insert tname [] [[.int 5], [.int 6]]) ∧
+    Spec.specStmt sdbA0 (.insert tname [] [[.int 5], [.int 6]]) = some sdbA1 ∧
+    StmtRefusal sdbA0 ptT (.createTable tname bcols) :=
+  ⟨dbFlushed_tableDB.inv, room_insert56, rfl, .create tname bcols (.exists_ rfl)⟩
+
+/-- **C16.reader_sees_the_same_rows_after_evictions** (the reader's side, `C17_contents_are_what_a_reader_sees`
+after an eviction): on a database that satisfies the invariant for `sdb`, after the eviction of ANY
+clean pages `RelationService.Fetch` - the source of every SELECT - returns for every table of `sdb` its
+declared columns and exactly its rows, value for value and in order: what it returns without the
+eviction. -/
+theorem C16_reader_sees_the_same_rows_after_evictions (db : Engine.DB) (sdb : Spec.SDB) (pt sch : Levels)
+    (tbls : List (Bytes × Levels)) (h : DbInv db sdb pt sch tbls) (offs : List Nat) (t : Bytes)
+    (tb : Spec.STable) (hfind : Spec.findTable sdb t = some tb) :
+    Reads db t tb.cols (tb.rows.map (·.vals)) ∧ Reads (evictDB db offs) t tb.cols (tb.rows.map (·.vals)) :=
+  reads_evict h offs hfind
+
+/-- non-vacuity: the table `t` of the plain database of `tableDB` -/
+example : DbInv tableDB sdbA0 ptT schT [(tname, tT)] ∧ Spec.findTable sdbA0 tname = some ⟨tname, schemaA, []⟩ :=
+  ⟨dbFlushed_tableDB.inv, rfl⟩
+
+/-- **C16.histories_with_evictions** (any evictions; through the plain model).  Take any history of
+statements, flushes of the page cache (in any page write order) and evictions of ANY clean pages
+(`CacheOp`), from a database that satisfies the invariant for `sdb`, and the same history with the
+evictions left out.  Under the side conditions of `C01_every_history_refines_plain_model` along both
+runs (`OpsOK`: an accepted statement has `StmtRoom`, a refused one is refused before a change; flushes
+and evictions have none) neither run crashes; every statement has the same outcome class in both
+(accepted / refused) - the plain model's verdict on the statements alone; both runs end in a database
+that satisfies the invariant for the SAME plain database, the one the statements alone imply
+(`specHist`); and a reader sees the same rows of every table in both.  Excluded by `OpsOK`, as in C01:
+statements refused at a later row (covered by `C16_histories_with_evictions_same_errors`).  The heap
+model has no capacity: a refusal for a cache full of dirty pages cannot occur in it
+(`C16_refusal_only_when_full_of_dirty` is the statement about when the real cache refuses). -/
+theorem C16_histories_with_evictions (order : List Nat) (ops : List CacheOp) (db : Engine.DB) (sdb : Spec.SDB)
+    (pt sch : Levels) (tbls : List (Bytes × Levels)) (h : DbInv db sdb pt sch tbls)
+    (hok : OpsOK order ops db sdb) (hok0 : OpsOK order (noEvict ops) db sdb) :
+    ∃ db1 outs1 db2 outs2, runOps order db ops = some (db1, outs1) ∧
+      runOps order db (noEvict ops) = some (db2, outs2) ∧
+      outs1.map Option.isNone = outs2.map Option.isNone ∧
+      outs1.map Option.isNone = specOuts sdb (stmtsOf ops) ∧
+      (∃ pt1 sch1 tbls1, DbInv db1 (specHist sdb (stmtsOf ops)) pt1 sch1 tbls1) ∧
+      (∃ pt2 sch2 tbls2, DbInv db2 (specHist sdb (stmtsOf ops)) pt2 sch2 tbls2) ∧
+      ∀ t tb, Spec.findTable (specHist sdb (stmtsOf ops)) t = some tb →
+        Reads db1 t tb.cols (tb.rows.map (·.vals)) ∧ Reads db2 t tb.cols (tb.rows.map (·.vals)) := by
+  obtain ⟨db1, outs1, pt1, sch1, tbls1, hr1, hi1, ho1⟩ := runOps_refines order ops db sdb pt sch tbls h hok
+  obtain ⟨db2, outs2, pt2, sch2, tbls2, hr2, hi2, ho2⟩ := runOps_refines order (noEvict ops) db sdb pt sch tbls h hok0
+  rw [stmtsOf_noEvict] at hi2 ho2
+  exact ⟨db1, outs1, db2, outs2, hr1, hr2, ho1.trans ho2.symm, ho1, ⟨pt1, sch1, tbls1, hi1⟩, ⟨pt2, sch2, tbls2, hi2⟩,
+    fun t tb hf => ⟨hi1.reads hf, hi2.reads hf⟩⟩
+
+/-- non-vacuity: every history whose statements are DELETEs on user-table names, with any WHERE clauses
+and any flushes and evictions in between, meets `OpsOK` from every database - here one on `tableDB` -/
+example : DbInv tableDB sdbA0 ptT schT [(tname, tT)] ∧
+    OpsOK [] [.evict allPages, .stmt (.delete tname none), .flush [], .evict [12288], .stmt (.delete tname (some condB))]
+      tableDB sdbA0 ∧
+    OpsOK [] (noEvict [.evict allPages, .stmt (.delete tname none), .flush [], .evict [12288],
+      .stmt (.delete tname (some condB))]) tableDB sdbA0 := by
+  have hd : ∀ st ∈ [Sql.Stmt.delete tname none, .delete tname (some condB)],
+      ∃ t w, st = .delete t w ∧ t ≠ sysPages ∧ t ≠ sysSchema := by
+    intro st hst
+    simp only [List.mem_cons, List.not_mem_nil, or_false] at hst
+    rcases hst with rfl | rfl
+    · exact ⟨tname, none, rfl, tname_ne_sys⟩
+    · exact ⟨tname, some condB, rfl, tname_ne_sys⟩
+  refine ⟨dbFlushed_tableDB.inv, ?_, ?_⟩
+  · apply opsOK_deletes
+    intro st hst
+    exact hd st hst
+  · apply opsOK_deletes
+    intro st hst
+    exact hd st hst
+
+/-- **C16.catalog_pages_may_always_be_evicted**: under the database invariant every page of the catalog
+description - the page table, `sys_schema`, every page of every table - is, where the engine sees it
+clean, the data file's page: the hypothesis `EvictSafe` of the two theorems below holds for any offsets
+among them (`catOffs`).  For other offsets `evictSafeB` computes it. -/
+theorem C16_catalog_pages_may_always_be_evicted (db : Engine.DB) (sdb : Spec.SDB) (pt sch : Levels)
+    (tbls : List (Bytes × Levels)) (h : DbInv db sdb pt sch tbls) (offs : List Nat)
+    (hoffs : ∀ o ∈ offs, o ∈ catOffs pt sch tbls) : EvictSafe db.store offs :=
+  h.evictSafe offs hoffs
+
+/-- non-vacuity: the three pages of `tableDB` are its catalog pages -/
+example : DbInv tableDB sdbA0 ptT schT [(tname, tT)] ∧ ∀ o ∈ allPages, o ∈ catOffs ptT schT [(tname, tT)] :=
+  ⟨dbFlushed_tableDB.inv, by decide +kernel⟩
+
+/-- **C16.evicted_run_is_the_same_run** (directly on the page heap, every outcome).  On a database that
+satisfies the invariant, whose cache has one entry per offset (`MemNodup`: it is a Go map), evict any
+pages that are in the data file (`EvictSafe`: any catalog pages, `C16_catalog_pages_may_always_be_evicted`).
+Then EVERY CREATE TABLE / INSERT / UPDATE / DELETE the parser can produce (side conditions of
+`C18_every_statement_keeps_the_database_invariant`: `StmtNames`, `StmtRoomT`, `StmtLits`) has the SAME
+outcome with and without the eviction: accepted by both, or refused by both WITH THE SAME ERROR VALUE -
+whether before a change or at a later row of a multi-row INSERT / UPDATE (the known finding of C14: the
+applied prefix is the same on both sides).  The two resulting databases have the same log, the same
+headers, the same data file and show the same page with the same dirty bit at every offset (`DbEq`),
+and satisfy the invariant for the SAME plain database and the SAME catalog trees.  The proof is a
+simulation of every program of the page store (`Sim`, Proofs/Evict3-6), not a detour through the plain
+model. -/
+theorem C16_evicted_run_is_the_same_run (db : Engine.DB) (order : List Nat) (sdb : Spec.SDB) (pt sch : Levels)
+    (tbls : List (Bytes × Levels)) (h : DbInv db sdb pt sch tbls) (hn : MemNodup db.store) (offs : List Nat)
+    (hs : EvictSafe db.store offs) (st : Sql.Stmt) (hnames : StmtNames pt tbls st)
+    (hroom : StmtRoomT db pt sch tbls st) (hlits : StmtLits st) :
+    ∃ db1 db2,
+      ((evalStmt db order st = .ok () db1 ∧ evalStmt (evictDB db offs) order st = .ok () db2) ∨
+        ∃ e, evalStmt db order st = .err e db1 ∧ evalStmt (evictDB db offs) order st = .err e db2) ∧
+      DbEq db1 db2 ∧
+      ∃ sdb' pt' sch' tbls', DbInv db1 sdb' pt' sch' tbls' ∧ DbInv db2 sdb' pt' sch' tbls' :=
+  evalStmt_evict_exact h hn offs hs order st hnames hroom hlits
+
+/-- non-vacuity: the computed database after INSERT and flush, the eviction of all its pages, and
+`UPDATE t SET a = 7 WHERE a = 5` -/
+example : (∃ pt sch tbls, DbInv dbF sdbA1 pt sch tbls ∧ StmtNames pt tbls stU ∧ StmtRoomT dbF pt sch tbls stU ∧
+    StmtLits stU) ∧ MemNodup dbF.store ∧ EvictSafe dbF.store allPages :=
+  ⟨dbInv_dbF, memNodup_dbF, evictSafe_dbF⟩
+
+/-- **C16.histories_with_evictions_same_errors** (directly on the page heap; no side condition on the
+statements).  Run any history of statements, flushes and evictions from a database whose cache is filed
+under its own offsets with one entry per offset, every eviction dropping only pages that are in the data
+file at that moment (`evictsSafeB`, computed along the run; under the invariant: any catalog pages).  If
+that run completes (no panic, unmodelled path or exhausted fuel: C18), then the same statements and
+flushes WITHOUT any eviction complete too, with the same outcome for every statement - `none` for
+accepted, `some e` for refused with the error `e`, the SAME `e` - and the two final databases have the
+same log, headers and data file and show the same page at every offset; in particular they satisfy the
+database invariant for the same plain database.  As above, the heap model cannot exhibit a refusal for a
+full cache. -/
+theorem C16_histories_with_evictions_same_errors (order : List Nat) (ops : List CacheOp) (db : Engine.DB)
+    (hf : MemFiled db.store) (hn : MemNodup db.store) (hsafe : evictsSafeB order ops db = true)
+    (d2 : Engine.DB) (outs : List (Option Engine.StmtErr)) (hrun : runOps order db ops = some (d2, outs)) :
+    ∃ d1, runOps order db (noEvict ops) = some (d1, outs) ∧ DbEq d1 d2 ∧
+      ∀ sdb pt sch tbls, DbInv d1 sdb pt sch tbls ↔ DbInv d2 sdb pt sch tbls := by
+  obtain ⟨d1, hr, hd⟩ := runOps_exact order ops db db (DbEq.refl hf hn) hsafe d2 outs hrun
+  exact ⟨d1, hr, hd, fun _ _ _ _ => hd.dbInv⟩
+
+/-- non-vacuity: a history on `tableDB` - INSERT, flush, eviction of all pages, UPDATE, eviction (the
+dirty page stays), DELETE, flush, eviction, a refused CREATE TABLE: every eviction is safe and the run
+completes with the outcomes accepted, accepted, accepted, refused -/
+example : MemFiled tableDB.store ∧ MemNodup tableDB.store ∧ evictsSafeB [] opsExample tableDB = true ∧
+    ((runOps [] tableDB opsExample).map fun r => r.2.map Option.isNone) = some [true, true, true, false] :=
+  ⟨memFiled_tableDB, memNodup_tableDB, opsExample_ok.1, opsExample_ok.2⟩
+
+/-- **C16.cache_has_one_entry_per_offset**: the hypothesis `MemNodup` of the two theorems above - the model's
+cache, an association list, has one entry per offset, as the Go map it stands for - holds for the empty
+cache of every freshly opened data file and is kept, together with `MemFiled`, by every statement
+whatever its outcome, every flush and every eviction: it holds in every database a history reaches. -/
+theorem C16_cache_has_one_entry_per_offset (order : List Nat) (ops : List CacheOp) (db : Engine.DB)
+    (hf : MemFiled db.store) (hn : MemNodup db.store) (d : Engine.DB) (outs : List (Option Engine.StmtErr))
+    (hrun : runOps order db ops = some (d, outs)) :
+    MemNodup d.store ∧ MemFiled d.store ∧ ∀ s : Store, MemNodup (reopen s) :=
+  ⟨(runOps_memNodup order ops db hf hn d outs hrun).1, (runOps_memNodup order ops db hf hn d outs hrun).2,
+    memNodup_reopen⟩
+
+/-- non-vacuity: the example history on `tableDB` completes -/
+example : MemFiled tableDB.store ∧ MemNodup tableDB.store ∧ (runOps [] tableDB opsExample).isSome = true :=
+  ⟨memFiled_tableDB, memNodup_tableDB, by decide +kernel⟩
+
+/-- **C16.evictions_on_a_computed_database** (the model evaluated): on `tableDB` run
+`INSERT INTO t VALUES (5), (6)` and flush; the three pages are cached and clean.  Evicting all of them
+empties the cache; `Fetch` of `t` then returns the rows 11 and 12 with the values 5 and 6, as it does
+from the full cache; `UPDATE t SET a = 7 WHERE a = 5` succeeds with and without the eviction and `Fetch`
+returns 7 and 6 after both.  Before the flush the page of `t` is dirty and an eviction of all three
+offsets leaves it in the cache. -/
+theorem C16_evictions_on_a_computed_database :
+    dbF.store.mem.map (·.1) = [4096, 12288, 8192] ∧ (evictDB dbF allPages).store.mem = [] ∧
+    rowsOfDB dbF = some [(11, [.int 5]), (12, [.int 6])] ∧
+    rowsOfDB (evictDB dbF allPages) = some [(11, [.int 5]), (12, [.int 6])] ∧
+    rowsAfterU dbF = some [(11, [.int 7]), (12, [.int 6])] ∧
+    rowsAfterU (evictDB dbF allPages) = some [(11, [.int 7]), (12, [.int 6])] ∧
+    (evictDB dbI allPages).store.mem.map (·.1) = [12288] :=
+  evict_example
+
+end Mkdb.Store
